@@ -26,6 +26,7 @@ LEVEL_NOTE = ("A crash is modelled as exception unwinding (a killed process cann
 
 METHODS = ("rtf", "docx", "html", "pdf")
 PRE = ("absent", "exists", "missingdir")
+PRE_MORE = ("exists_binary", "exists_same", "exists_same_crlf")  # particular contents of a pre-existing target
 STUBS = ("ok", "html_res", "raise_before", "raise_after", "list", "none", "str", "missing_path", "default")
 DOCS = ("table", "paged", "figure")
 
@@ -66,9 +67,9 @@ def judge(r, method, stub_mode, pre):
     changed = [p for p, v in after.items() if p in before and before[p] != v]
     removed = [p for p in before if p not in after]
     if r["result"][0] == "exc":
-        if pre == "exists" and after.get(tgt) != b"OLD-CONTENT":
+        if pre.startswith("exists") and after.get(tgt) != r.get("pre_bytes"):
             out.append(("existing-target-damaged-on-failure", f"export raised {r['result'][1]} but the pre-existing target now holds {str(after.get(tgt))[:40]!r}"))
-        if pre != "exists" and tgt in after:
+        if not pre.startswith("exists") and tgt in after:
             out.append(("partial-target-on-failure", f"export raised {r['result'][1]} but a target file exists ({len(after[tgt] or b'')} bytes)"))
         others = [p for p in new_files if p != tgt]
         if others:
@@ -157,11 +158,15 @@ def plan(run):
     # 1. matrix without faults (also yields the call sites)
     base = []
     for m in METHODS:
+        for pre in PRE_MORE:
+            for kind in DOCS:
+                base.append({"mode": "nofault", "method": m, "stub": (None if m == "rtf" else "ok"), "pre": pre, "doc": kind})
+    for m in METHODS:
         for pre in PRE:
             for stub in (STUBS if m != "rtf" else (None,)):
                 if stub == "html_res" and m != "html":
                     continue
-                for kind in (DOCS if not quick else ("table",)):
+                for kind in (DOCS if (not quick or m == "rtf") else ("table",)):
                     base.append({"mode": "nofault", "method": m, "stub": stub, "pre": pre, "doc": kind})
     info = {}
 
@@ -180,6 +185,8 @@ def plan(run):
             if stub == "raise_after" and m != "docx":
                 continue
             if m in ("docx", "pdf") and pre != PRE[(run.seed + METHODS.index(m)) % 3]:
+                continue
+            if pre in PRE_MORE and not (m == "rtf" and pre == "exists_binary"):
                 continue
             if m == "html" and stub == "ok":
                 continue
